@@ -119,4 +119,18 @@ CHECKS = {
         "note": TLCNOTE + "JSON number text <-> float64 trusted to strconv/encoding/json.",
         "technique": "TLA+ abstract GeoJSON document model (TLC exhaustive) + TLC-generated documents replayed + TLC trace validation of recorded output",
     },
+    "C08": {
+        "text": "Every decoder and adapter is called on untrusted input inside a sacrificial worker process (3 GiB address-space limit, "
+                "timeout, recover around every call); one event per input records the outcome, the heap the input made the process "
+                "acquire, whether a validated result passes Validate and whether every result can be re-encoded. The trace specification "
+                "has a step only for the outcomes err / ok within the memory bound; panic and a killed process have none. Inputs: "
+                "TLC-enumerated corruptions (every truncation, header/count/type byte substitution, boundary counts at every offset) of "
+                "the encodings written by the specification's WKB writer - each also read by the specification's reader, whose counts are "
+                "checked against the remaining input and which must never leave the input - plus seeded sweeps and mutations of a corpus "
+                "in all four formats.",
+        "note": TLCNOTE + "Memory judged as heap held after the call minus heap held before it (after returning free memory to the OS), "
+                "bound 128 MiB + 2048 x input length (Go heap arenas are 64 MiB); timeouts are counted as inconclusive because the "
+                "property bounds memory, not time. No coverage-guided fuzzing.",
+        "technique": "TLA+ outcome specification + TLC-enumerated structured corruptions of reference encodings + TLC trace validation of observed decoder outcomes",
+    },
 }
